@@ -484,7 +484,7 @@ class BaseEvent(BaseModel, Generic[T_EventResultType]):
             return False
         if event_result.result is None:
             return False
-        if isinstance(event_result.result, BaseException) or event_result.error:
+        if isinstance(event_result.result, BaseException) or event_result.error is not None:
             return False
         if isinstance(
             event_result.result, BaseEvent
@@ -522,12 +522,12 @@ class BaseEvent(BaseModel, Generic[T_EventResultType]):
         error_results: dict[PythonIdStr, EventResult[T_EventResultType]] = {
             handler_key: event_result
             for handler_key, event_result in event_results.items()
-            if event_result.error or isinstance(event_result.result, BaseException)
+            if event_result.error is not None or isinstance(event_result.result, BaseException)
         }
 
         if raise_if_any and error_results:
             failing_handler, failing_result = list(error_results.items())[0]  # throw first error
-            original_error = failing_result.error or cast(Any, failing_result.result)
+            original_error = failing_result.error if failing_result.error is not None else cast(Any, failing_result.result)
 
             # Log the handler context information instead of wrapping the exception
             logger.debug(f'Event handler {failing_handler}({self}) returned an error -> {original_error}')
@@ -921,7 +921,7 @@ class EventResult(BaseModel, Generic[T_EventResultType]):
                     f'Event handler {self.eventbus_name}.{self.handler_name}(#{self.event_id[-4:]}) timed out after {self.timeout}s'
                 )
 
-            if self.status == 'error' and self.error:
+            if self.status == 'error' and self.error is not None:
                 raise self.error if isinstance(self.error, BaseException) else Exception(self.error)  # pyright: ignore[reportUnnecessaryIsInstance]
 
             return self.result
